@@ -534,6 +534,16 @@ func ruleSchemeImmutable(w *World, r *Report, rule string) {
 		r.Undecided(rule, "anchor", "-", "anchor unresolved: upstream.Upstream")
 		return
 	}
+	var urlNamed *types.Named
+	if up := w.ByPath["net/url"]; up != nil {
+		if tn, ok := up.Types.Scope().Lookup("URL").(*types.TypeName); ok {
+			urlNamed, _ = tn.Type().(*types.Named)
+		}
+	}
+	if urlNamed == nil {
+		r.Undecided(rule, "anchor", "-", "anchor unresolved: net/url.URL")
+		return
+	}
 	seenM := map[*types.Func]bool{}
 	for _, n := range w.Implementers(ui) {
 		m := methodOf(n, "Connect")
@@ -560,7 +570,7 @@ func ruleSchemeImmutable(w *World, r *Report, rule string) {
 					return
 				}
 				fv := fieldVarOf(fa)
-				if fv == nil || fv.Name() != "Scheme" || fv.Pkg() == nil || fv.Pkg().Path() != "net/url" {
+				if fv == nil || fv.Pkg() == nil || fv.Pkg().Path() != "net/url" || !fieldOwnerNamed(urlNamed, fv) {
 					return
 				}
 				// base of the address chain
@@ -573,7 +583,14 @@ func ruleSchemeImmutable(w *World, r *Report, rule string) {
 					break
 				}
 				if base == recv {
-					bad = fmt.Sprintf("%s: Connect rewrites the scheme of the upstream's configured address: the next (re)connect no longer sees the +tls suffix and dials in plaintext", w.Pos(st.Pos()))
+					switch fv.Name() {
+					case "Scheme":
+						bad = fmt.Sprintf("%s: Connect rewrites the scheme of the upstream's configured address: the next (re)connect no longer sees the +tls suffix and dials in plaintext", w.Pos(st.Pos()))
+					case "User":
+						bad = fmt.Sprintf("%s: Connect overwrites the credentials of the upstream's configured address: the next (re)connect no longer sees the shared secret and silently runs the carrier without its cipher", w.Pos(st.Pos()))
+					default:
+						bad = fmt.Sprintf("%s: Connect rewrites %s of the upstream's configured address: the next (re)connect interprets a different address than the one configured", w.Pos(st.Pos()), fv.Name())
+					}
 				}
 			})
 			for _, c := range callsIn(f) {
@@ -585,7 +602,7 @@ func ruleSchemeImmutable(w *World, r *Report, rule string) {
 		if fn := w.SSAFunc(m); fn != nil && len(fn.Params) > 0 {
 			walk(fn, fn.Params[0], 0)
 		}
-		r.Check(bad == "", rule, key, w.Pos(m.Pos()), "Connect works on a copy: the configured scheme is never written", bad)
+		r.Check(bad == "", rule, key, w.Pos(m.Pos()), "Connect never writes the configured address (scheme, credentials, host): every reconnect interprets the same address", bad)
 	}
 }
 
